@@ -10,7 +10,7 @@ Local Open Scope N_scope.
 
 Definition rt_cfg : config :=
   {| cf_show_esc := rt_show_escapes; cf_look_esc := rt_look_escapes; cf_look_cont := rt_look_continue;
-     cf_float_look_long := rt_float_look_long; cf_int_signext := rt_scan_int_signext;
+     cf_float_look_long := rt_float_look_long; cf_int_signext := rt_scan_int_signext; cf_int_signext_narrow := rt_scan_int_signext_narrow;
      cf_lit_measure := rt_scan_lit_measures; cf_pct_measure := rt_scan_pct_measures |}.
 
 (* the shape of the surrounding C code the model encodes is still the one found by genx_rt.py *)
@@ -92,10 +92,10 @@ Proof. vm_compute. reflexivity. Qed.
    eaten the padding of the next number) and by 2 for "%%" (one character) *)
 Definition cfg_old_literals : config :=
   {| cf_show_esc := rt_show_escapes; cf_look_esc := rt_look_escapes; cf_look_cont := true;
-     cf_float_look_long := true; cf_int_signext := true; cf_lit_measure := false; cf_pct_measure := false |}.
+     cf_float_look_long := true; cf_int_signext := true; cf_int_signext_narrow := true; cf_lit_measure := false; cf_pct_measure := false |}.
 
 Definition spec_5li : nspec := {| n_conv := 105; n_long := true; n_plus := false; n_space := false;
-                                  n_zero := false; n_alt := false; n_width := 5; n_prec := None |}.
+                                  n_zero := false; n_alt := false; n_width := 5; n_prec := None; n_short := 0 |}.
 
 Lemma rt_literal_length_refuted :
   let its := [PShow (VStr [97; 98]); PLit [32]; PNum spec_5li (VInt 42)] in
@@ -151,10 +151,10 @@ Qed.
 
 (* F6 as found: a d directive without `l` stores 32 bits into a zeroed long; -5 comes back as 2^32 - 5 *)
 Definition spec_d : nspec := {| n_conv := 100; n_long := false; n_plus := false; n_space := false;
-                                n_zero := false; n_alt := false; n_width := 0; n_prec := None |}.
+                                n_zero := false; n_alt := false; n_width := 0; n_prec := None; n_short := 0 |}.
 Definition cfg_no_signext : config :=
   {| cf_show_esc := rt_show_escapes; cf_look_esc := rt_look_escapes; cf_look_cont := true;
-     cf_float_look_long := true; cf_int_signext := false; cf_lit_measure := true; cf_pct_measure := true |}.
+     cf_float_look_long := true; cf_int_signext := false; cf_int_signext_narrow := false; cf_lit_measure := true; cf_pct_measure := true |}.
 
 Lemma rt_scan_d_zero_extends_refuted :
   exists z, (- two31 <= z < two31)%Z /\
@@ -166,15 +166,15 @@ Lemma rt_scan_d_repaired_example :
 Proof. vm_compute. reflexivity. Qed.
 
 Definition spec_p08d : nspec := {| n_conv := 100; n_long := false; n_plus := true; n_space := false;
-                                   n_zero := true; n_alt := false; n_width := 8; n_prec := None |}.
+                                   n_zero := true; n_alt := false; n_width := 8; n_prec := None; n_short := 0 |}.
 
 Definition spec_lX : nspec := {| n_conv := 88; n_long := true; n_plus := false; n_space := false;
-                                 n_zero := false; n_alt := false; n_width := 0; n_prec := None |}.
+                                 n_zero := false; n_alt := false; n_width := 0; n_prec := None; n_short := 0 |}.
 Definition spec_lx : nspec := {| n_conv := 120; n_long := true; n_plus := false; n_space := false;
-                                 n_zero := false; n_alt := false; n_width := 0; n_prec := None |}.
+                                 n_zero := false; n_alt := false; n_width := 0; n_prec := None; n_short := 0 |}.
 
 Definition spec_p020_8lf : nspec := {| n_conv := 102; n_long := true; n_plus := true; n_space := false;
-                                      n_zero := true; n_alt := false; n_width := 20; n_prec := Some 8%nat |}.
+                                      n_zero := true; n_alt := false; n_width := 20; n_prec := Some 8%nat; n_short := 0 |}.
 
 Definition ex_items_f : list pitem :=
   [PShow (VFloat 4728057454355442549); PLit [44; 32]; PShow (VStr [97; 34]); PLit [59];
@@ -224,6 +224,37 @@ Example ex_int_directive_d : int_directive_ok rt_cfg spec_p08d spec_d (-21474836
 Proof.
   left. repeat split; try reflexivity; try (left; reflexivity); try (cbn; unfold two31; lia); try discriminate.
 Qed.
+
+(* the sign restoration covers every narrow directive: none (int), h (short), hh (char) *)
+Lemma rt_int_restore : forall sp, int_restore rt_cfg sp = true.
+Proof. intros sp. unfold int_restore. destruct (n_short sp); vm_compute; reflexivity. Qed.
+
+Definition spec_hhd : nspec := {| n_conv := 100; n_long := false; n_plus := false; n_space := false;
+                                  n_zero := false; n_alt := false; n_width := 0; n_prec := None; n_short := 2 |}.
+Definition spec_hx : nspec := {| n_conv := 120; n_long := false; n_plus := false; n_space := false;
+                                 n_zero := true; n_alt := false; n_width := 6; n_prec := None; n_short := 1 |}.
+
+Example ex_int_directive_hhd : int_directive_ok rt_cfg spec_hhd spec_hhd (-128) ex_rest.
+Proof.
+  left. repeat split; try reflexivity; try (left; reflexivity); try (cbn; lia); try discriminate.
+Qed.
+
+Example ex_int_directive_hx : int_directive_ok rt_cfg spec_hx spec_hx 65535 ex_rest.
+Proof.
+  right. repeat split; try reflexivity; try (cbn; lia); try discriminate;
+    try (right; left; reflexivity).
+Qed.
+
+(* as found after the first repair: h / hh results were still zero-extended (-1 read back as 255) *)
+Definition cfg_no_narrow : config :=
+  {| cf_show_esc := rt_show_escapes; cf_look_esc := rt_look_escapes; cf_look_cont := true;
+     cf_float_look_long := true; cf_int_signext := true; cf_int_signext_narrow := false;
+     cf_lit_measure := true; cf_pct_measure := true |}.
+
+Lemma rt_scan_hh_zero_extends_refuted :
+  scan_num cfg_no_narrow spec_hhd (print_num spec_hhd (VInt (-1))) = Some (VInt 255, 2%nat) /\
+  scan_num rt_cfg spec_hhd (print_num spec_hhd (VInt (-1))) = Some (VInt (-1), 2%nat).
+Proof. vm_compute. split; reflexivity. Qed.
 
 Example ex_int_directive_lX : int_directive_ok rt_cfg spec_lX spec_lx (-5) ex_rest.
 Proof.
